@@ -19,6 +19,7 @@ CMD       = {"c":"step"} | {"c":"end","o":PRED} | {"c":"op","op":OP} | {"c":"in"
 from __future__ import annotations
 
 import asyncio
+import functools
 import inspect
 import logging
 import math
@@ -86,7 +87,7 @@ class _KeysGetItem:
 
 def cbk(kind):
     """callback kind as recorded in traces / known to the model: 'sfut' (a plain callback returning a future) is a 'sync' one"""
-    return "sync" if kind in ("sfut", "sobj") else kind
+    return "sync" if kind in ("sfut", "sobj", "swrap") else "async" if kind == "amark" else kind
 
 
 def _parse_id(name):
@@ -313,8 +314,11 @@ class PoolRun:
             self.reqs[-1] = st
             a, k = self.shape_args(plan["shape"], -1)
             self.simple_exp = repr((tuple(a), k))
+            sfunc = self.make_func(-1, plan, set(plan.get("bad", [])))
+            if plan.get("partial"):
+                sfunc = functools.partial(sfunc)      # a coroutine function without a __name__
             self.pool = SimpleTaskPool(
-                self.make_func(-1, plan, set(plan.get("bad", []))), args=a, kwargs=k,
+                sfunc, args=a, kwargs=k,
                 end_callback=self.make_cb("ecb", plan["ecb"], -1),
                 cancel_callback=self.make_cb("ccb", plan["ccb"], -1), **kw)
         else:
@@ -558,7 +562,7 @@ class PoolRun:
         me = self
         if kind == "none":
             return None
-        if kind in ("sync", "sraise", "sfut", "sobj"):
+        if kind in ("sync", "sraise", "sfut", "sobj", "swrap"):
             def cb(tid):
                 tn = asyncio.current_task().get_name()
                 me.ev(which + "_in", id=tid, r=r, tn=tn)
@@ -573,6 +577,15 @@ class PoolRun:
                     fut = me.loop.create_future()
                     me.w.keep.append(fut)
                     return fut
+            if kind == "swrap":
+                # a plain function produced by a functools.wraps decorator around a coroutine function: still a plain function
+                async def wrapped_original(tid):
+                    return None
+
+                @functools.wraps(wrapped_original)
+                def wrapper(tid):
+                    return cb(tid)
+                return wrapper
             if kind == "sobj":
                 # any callable is a legal callback: here an object that is not hashable (it defines __eq__)
                 class CallbackObject:
@@ -603,6 +616,13 @@ class PoolRun:
                 me.ev(which + "_out", id=tid, how="exc")
                 raise boom("%s-%d" % (which, tid))
             me.ev(which + "_out", id=tid, how="ret")
+        if kind == "amark":
+            # a plain function that returns a coroutine and is marked as a coroutine function the asyncio way (what
+            # mock.create_autospec(async_fn) or compiled async functions look like): asyncio.iscoroutinefunction says yes
+            def marked(tid):
+                return acb(tid)
+            marked._is_coroutine = asyncio.coroutines._is_coroutine
+            return marked
         return acb
 
     # -- operations ------------------------------------------------------------------------------
@@ -704,7 +724,7 @@ class PoolRun:
             if self.simple and not 0 <= f["num"] <= 3:
                 w.xstop = True
                 return
-            if not self.simple and self.tpls[op["t"]].get("probe"):
+            if not self.simple and (self.tpls[op["t"]].get("probe") or self.tpls[op["t"]].get("mismatch")):
                 w.xstop = True
                 return
         elif o == "cancel":
@@ -755,13 +775,26 @@ class PoolRun:
             func = self.make_plain_func(r)
         else:
             func = self.make_func(r, tpl, set(tpl.get("bad", [])))
+            if tpl.get("partial") and tpl.get("gname") is not None:
+                # a functools.partial of a coroutine function is a coroutine function too (it has no __name__: the request
+                # carries an explicit group name)
+                func = functools.partial(func)
         ecb = self.make_cb("ecb", tpl["ecb"], r)
         ccb = self.make_cb("ccb", tpl["ccb"], r)
         gname = tpl.get("gname")
         f.update(r=r, t=op["t"], kind=kind, num=tpl["num"], nc=tpl.get("nc", 1), named=gname is not None,
-                 gname=gname or "", fn=func.__name__, notcoro=bool(tpl.get("notcoro")), ret="",
+                 gname=gname or "", fn=getattr(func, "__name__", "w"), notcoro=bool(tpl.get("notcoro")), ret="",
                  ecb=cbk(tpl["ecb"]), ccb=cbk(tpl["ccb"]), bad=sorted(tpl.get("bad", [])))
-        if kind == "apply":
+        if kind == "apply" and tpl.get("mismatch") and not tpl.get("notcoro"):
+            # arguments that do not fit the function: the request is accepted all the same, every invocation fails when
+            # func is called (before its body) and is skipped - so no call is ever recorded and no task appears
+            def strict(only, *, also):
+                raise AssertionError("unreachable")
+            strict.__name__, strict.__qualname__ = "w", "Harness.<locals>.w"
+            inspect.markcoroutinefunction(strict)
+            f.update(num=0, exp=[])
+            ret = pool.apply(strict, args=(), kwargs={}, num=tpl["num"], group_name=gname, end_callback=ecb, cancel_callback=ccb)
+        elif kind == "apply":
             a, k = self.shape_args(tpl["shape"], r)
             f["exp"] = [repr((tuple(a), k))]
             ret = pool.apply(func, args=a, kwargs=k, num=tpl["num"], group_name=gname,
